@@ -479,6 +479,14 @@ def part_unary(ctx, pp, torch, pools, U, files2, meta2):
                             and tuple(Rn.shape) == tuple(ls) + (d,) and ltype_name(Rn, torch) == nm + 'Type'
                             and bool((raw(I, torch).reshape(-1, d) == torch.tensor(ident, dtype=torch.float64)).all())
                             and tuple(I.lview(-1).lshape) == (numel(ls),) if numel(ls) else True)
+                    if good and numel(ls):
+                        # every documented call form of lview (ints, a torch.Size, a tuple / list), same items, same ltype
+                        n = numel(ls)
+                        for form in ((n,), (torch.Size([n]),), ((n,),), ([1, n],), (torch.Size(ls),)):
+                            V = Rn.lview(*form)
+                            want = tuple(form[0]) if isinstance(form[0], (tuple, list)) else tuple(form)
+                            good = good and tuple(V.lshape) == want and ltype_name(V, torch) == nm + 'Type' \
+                                and bool((raw(V, torch).reshape(-1, d) == raw(Rn, torch).reshape(-1, d)).all())
                 except Exception as e:
                     good = False
                 if not good:
